@@ -122,20 +122,21 @@ theorem execNext_inv (plan : List Host) : ∀ (s : St) (r : ReqId) (ws : List Bo
       have := ih s' r ws.tail hr' hnd' hs'
       exact ⟨this.1, by rw [this.2, hn']⟩
 
-theorem execSame_inv (s : St) (r : ReqId) (w : Bool) (hr : r < s.nreq) (hnd : (s.req r).done = false) (h : Inv s) :
-    Inv (execSame s r w) ∧ (execSame s r w).nreq = s.nreq := by
+theorem execSame_inv (s : St) (r : ReqId) (ws : List Bool) (hr : r < s.nreq) (hnd : (s.req r).done = false) (h : Inv s) :
+    Inv (execSame s r ws) ∧ (execSame s r ws).nreq = s.nreq := by
   unfold execSame
   split
   · exact ⟨Inv_finish s r none hr hnd (by simp) h, rfl⟩
   · rename_i hst _
-    have hsend := sendHost_view s hst (.req r) w
-    generalize sendHost s hst (.req r) w = p at hsend ⊢
+    have hsend := sendHost_view s hst (.req r) (ws.headD true)
+    generalize sendHost s hst (.req r) (ws.headD true) = p at hsend ⊢
     obtain ⟨s', ok⟩ := p
     simp only at hsend ⊢
     have hs' : Inv s' := Inv_of_eq s _ hsend.1 hsend.2.1 hsend.2.2 h
     split
     · exact ⟨hs', hsend.2.2⟩
-    · exact ⟨Inv_of_eq s' _ rfl rfl rfl hs', hsend.2.2⟩
+    · have := execNext_inv (s'.req r).plan s' r ws.tail (by rw [hsend.2.2]; exact hr) (by rw [hsend.1]; exact hnd) hs'
+      exact ⟨this.1, by rw [this.2, hsend.2.2]⟩
 
 theorem onResult_inv (s : St) (r : ReqId) (o : Outcome) (og : Handle) (ws : List Bool) (hr : r < s.nreq)
     (hog : og.rid = r) (h : Inv s) :
@@ -155,7 +156,7 @@ theorem onResult_inv (s : St) (r : ReqId) (o : Outcome) (og : Handle) (ws : List
     · exact ⟨Inv_finish s r _ hr hnd hso h, rfl⟩
     · split
       · exact ⟨Inv_finish s r _ hr hnd hso h, rfl⟩
-      · have := execSame_inv _ r (ws.headD true) hrb hndb hbump
+      · have := execSame_inv _ r ws hrb hndb hbump
         exact ⟨this.1, by rw [this.2]; simp [St.setReq]⟩
       · have := execNext_inv (s.req r).plan _ r ws hrb hndb hbump
         exact ⟨this.1, by rw [this.2]; simp [St.setReq]⟩
@@ -279,18 +280,19 @@ theorem execNext_connsOK (plan : List Host) : ∀ (s : St) (r : ReqId) (ws : Lis
     · exact h2
     · exact ih s' r ws.tail (by rw [hv.2.2]; exact hr1) h2
 
-theorem execSame_connsOK (s : St) (r : ReqId) (w : Bool) (hr : r < s.nreq) (h : ConnsOK s) : ConnsOK (execSame s r w) := by
+theorem execSame_connsOK (s : St) (r : ReqId) (ws : List Bool) (hr : r < s.nreq) (h : ConnsOK s) : ConnsOK (execSame s r ws) := by
   unfold execSame
   split
   · exact finish_connsOK _ _ _ h
   · rename_i hst _
-    have h2 := sendHost_connsOK s hst (.req r) w hr h
-    generalize sendHost s hst (.req r) w = p at h2 ⊢
+    have h2 := sendHost_connsOK s hst (.req r) (ws.headD true) hr h
+    have hv := sendHost_view s hst (.req r) (ws.headD true)
+    generalize sendHost s hst (.req r) (ws.headD true) = p at h2 hv ⊢
     obtain ⟨s', ok⟩ := p
-    simp only at h2 ⊢
+    simp only at h2 hv ⊢
     split
     · exact h2
-    · exact ConnsOK_of_eq s' _ rfl rfl h2
+    · exact execNext_connsOK _ s' r ws.tail (by rw [hv.2.2]; exact hr) h2
 
 theorem onResult_connsOK (s : St) (r o og ws) (hr : r < s.nreq) (h : ConnsOK s) : ConnsOK (onResult s r o og ws) := by
   unfold onResult
